@@ -388,7 +388,7 @@ func tallFamily(c *Ctx, prop string) {
 	}
 	c.Cov.Bound["gap_family"] = fmt.Sprintf("N=%v interval width<=%d, %d neighbour blocks, undone completely; %d runs", gapNs, gapW, gapDepth-1, len(runs)-gapStart)
 	// two-deletion-block family: every [add N][delete S][delete T, add k] (3^N assignments), and its undo(s)
-	tdN := 8
+	tdN := 7
 	if c.Thorough() {
 		tdN = 9
 	}
